@@ -768,6 +768,37 @@ func TestVerifC06(t *testing.T) {
 		b.Sig = c06ResizeSig(r, b.Sig.v(), n)
 		run("sweep-bid-siglen", hb(c06Frame{Bid: b}))
 	}
+	// correctly signed bids (a peer signs whatever it likes) with short / empty / odd tx strings, with and
+	// without allowance, accepted and rejected by the engine
+	for n := 0; n <= 20; n++ {
+		for _, allow := range []bool{false, true} {
+			b := &c06Bid{Tx: c06S{S: strings.Repeat("a", n)}, Amt: c06S{S: "1000"}, BN: 10, DS: 1700000000000, DE: 1700000001000}
+			if n%5 == 4 {
+				b.Tx = c06S{S: strings.Repeat(",", n)}
+			}
+			c06SignBid(b, c06BidderKey)
+			in := hb(c06Frame{Bid: b})
+			in.Allow = allow
+			if n%2 == 1 {
+				in.Status = int32(providerapiv1.BidResponse_STATUS_REJECTED)
+			}
+			run("signed-short-tx", in)
+		}
+	}
+	for _, b := range []*c06Bid{
+		{Tx: c06S{S: "\u00e9\u00e9\u00e9\u00e9\u00e9\u00e9\u00e9\u00e9"}, Amt: c06S{S: "0"}},
+		{Tx: c06S{S: "tx"}, Amt: c06S{S: "0"}, BN: -1, DS: -1, DE: -1},
+		{Tx: c06S{S: "0x"}, Amt: c06S{S: "115792089237316195423570985008687907853269984665640564039457584007913129639935"}, BN: 1},
+		{Tx: c06S{S: "t", N: 1 << 18}, Amt: c06S{S: "007"}, BN: 1 << 62},
+	} {
+		for _, allow := range []bool{false, true} {
+			c06SignBid(b, c06BidderKey)
+			cp := *b
+			in := hb(c06Frame{Bid: &cp})
+			in.Allow = allow
+			run("signed-odd-fields", in)
+		}
+	}
 	for _, role := range []int{0, 1, 2, 3, -1, 1 << 30} {
 		in := hb(c06Frame{Bid: c06GenBid(r, c06BidderKey, 50)})
 		in.Role = role
